@@ -213,9 +213,15 @@ def run(ctx: Ctx) -> None:
     # other subscribe_* that promise a remover return the one from their own registration
     for name in ("subscribe_bluetooth_le_advertisements", "subscribe_bluetooth_le_raw_advertisements"):
         m = client.methods[name]
-        reg = [n for n in own_nodes(m.node) if isinstance(n, ast.Assign) and isinstance(n.value, ast.Call) and isinstance(n.value.func, ast.Attribute) and n.value.func.attr == "send_message_callback_response"]
+        from ..astutil import bound_name
+
+        reg = [n for n in own_nodes(m.node) if isinstance(n, ast.Call) and isinstance(n.func, ast.Attribute) and n.func.attr == "send_message_callback_response"]
         rets = [n for n in own_nodes(m.node) if isinstance(n, ast.Return) and isinstance(n.value, ast.Call)]
-        okr = len(reg) == 1 and len(rets) == 1 and norm(rets[0].value.func).endswith("partial") and [norm(a) for a in rets[0].value.args] == ["self._unsub_bluetooth_advertisements", norm(reg[0].targets[0])]
+        okr = False
+        if len(reg) == 1 and len(rets) == 1 and norm(rets[0].value.func).endswith("partial") and len(rets[0].value.args) == 2:
+            a0, a1 = rets[0].value.args
+            rv = bound_name(m.node, reg[0])
+            okr = norm(a0) == "self._unsub_bluetooth_advertisements" and (a1 is reg[0] or (rv is not None and isinstance(a1, ast.Name) and a1.id == rv))
         ctx.ob("C17.R4", m, f"{name}: returned unsubscribe wraps the remover of its own registration", okr, "")
     ub = client.methods["_unsub_bluetooth_advertisements"]
     gu = cfg_of(ctx, ub)
